@@ -201,6 +201,42 @@ class Fn:
         s.stmt(body)
         name, used = s.inl_ret.pop(); s.returned = saved
         return name if used else None
+    def cps_call(s, fn, args):
+        """a call to a separately translated (and separately proved) function, kept as a call in continuation-passing form:
+        callee_k <values it reads> (fun <values it writes> => rest)"""
+        if s.style != 'bind': raise Unsupported('continuation-passing calls need the bind style')
+        kname, pnames, sig_ins, sig_outs = s.cps[fn]
+        if len(pnames) != len(args): raise Unsupported('call arity: ' + fn)
+        base = {}
+        for pn, a in zip(pnames, args):
+            b = strip(a)
+            if b['kind'] == 'UnaryOperator' and b['opcode'] == '&': b = strip(b['inner'][0])
+            base[pn] = b['referencedDecl']['name'] if b['kind'] == 'DeclRefExpr' else None
+            base[(pn, 'expr')] = a
+        def rd(pn, kind, key):
+            if kind == 'scalar': return s.ex(base[(pn, 'expr')])
+            b = base[pn]
+            if b is None: raise Unsupported('pointer argument shape in call to ' + fn)
+            if kind == 'mem':
+                f, i = key; k3 = (b, f, i)
+                if k3 not in s.written: s.mem_in.setdefault(b, set()).add((f, i))
+                return '%s_%s%s' % (b, f, '' if i < 0 else i)
+            if kind == 'arr':
+                if (b, key) not in s.written: s.arr_in.setdefault(b, set()).add(key)
+                return '%s%d' % (b, key)
+            if kind == 'ptr': s.ptr_in.add(b); return b + '_v'
+        ins = [rd(*x) for x in sig_ins]
+        outs = []
+        for pn, kind, key in sig_outs:
+            if kind == 'ret': outs.append('_'); continue
+            b = base[pn]
+            if b is None: raise Unsupported('pointer argument shape in call to ' + fn)
+            if kind == 'mem':
+                f, i = key; s.mem_out.setdefault(b, set()).add((f, i)); s.written.add((b, f, i)); outs.append('%s_%s%s' % (b, f, '' if i < 0 else i))
+            elif kind == 'arr':
+                s.outs.setdefault(b, set()).add(key); s.outs_arrays.add(b); s.written.add((b, key)); outs.append('%s%d' % (b, key))
+            elif kind == 'ptr': s.ptr_out.add(b); outs.append(b + '_v')
+        s.lines.append('  %s_k %s (fun %s =>' % (kname, ' '.join(i if i.replace('_', '').isalnum() else '(%s)' % i for i in ins), ' '.join(outs)))
     def let(s, name, e):
         if e == name: return
         if s.style == 'bind': s.lines.append('  bind %s (fun %s =>' % (e if e.startswith('(') or e.replace('_', '').isalnum() else '(%s)' % e, name))
@@ -216,6 +252,8 @@ class Fn:
             for v in n['inner']:
                 if v['kind'] != 'VarDecl': raise Unsupported('decl ' + v['kind'])
                 init = [c for c in v.get('inner', []) if not c['kind'].endswith('Attr')]
+                if re.search(r'\[\d+\]$', v['type']['qualType']) and not init:
+                    width(re.sub(r'\[\d+\]$', '', v['type']['qualType'])); continue      # a local array: its elements become variables when written
                 width(v['type']['qualType'])
                 if init:
                     i0 = init[0]
@@ -235,6 +273,7 @@ class Fn:
                 if r['kind'] != 'IntegerLiteral' or not (0 <= int(r['value']) < 128): raise Unsupported('u128_rshift amount')
                 s.let(d, '(%s / 2^%s)' % (d, r['value'])); return
             if fn in NOOP_CALLS: return      # production builds: empty bodies ((void)arg)
+            if fn in getattr(s, 'cps', {}): s.cps_call(fn, args); return
             if fn in s.inlines: s.inline_call(fn, args); return
             raise Unsupported('call statement: ' + fn)
         if k == 'BinaryOperator' and n['opcode'] == '=':
@@ -274,29 +313,30 @@ class Fn:
         body = [c for c in s.d['inner'] if c['kind'] == 'CompoundStmt'][0]
         params = [c for c in s.d['inner'] if c['kind'] == 'ParmVarDecl']
         s.stmt(body)
-        ins = []; s.param_spec = []
+        ins = []; s.param_spec = []; s.sig_ins = []; s.sig_outs = []
         def mname(nm, f, i): return '%s_%s%s' % (nm, f, '' if i < 0 else i)
         for p in params:
             nm = p['name']
             if nm in s.mem_in or nm in s.mem_out:
-                spec = sorted(s.mem_in.get(nm, set())); ins += [mname(nm, f, i) for (f, i) in spec]; s.param_spec.append(spec)
-            elif nm in s.arr_in: ins += ['%s%d' % (nm, i) for i in sorted(s.arr_in[nm])]; s.param_spec.append(None)
+                spec = sorted(s.mem_in.get(nm, set())); ins += [mname(nm, f, i) for (f, i) in spec]; s.param_spec.append(spec); s.sig_ins += [(nm, 'mem', fi) for fi in spec]
+            elif nm in s.arr_in: ins += ['%s%d' % (nm, i) for i in sorted(s.arr_in[nm])]; s.param_spec.append(None); s.sig_ins += [(nm, 'arr', i) for i in sorted(s.arr_in[nm])]
             elif nm in s.outs: s.param_spec.append(None)
             elif nm in s.ptr_in or nm in s.ptr_out:
-                if nm in s.ptr_in: ins.append(nm + '_v')
+                if nm in s.ptr_in: ins.append(nm + '_v'); s.sig_ins.append((nm, 'ptr', None))
                 s.param_spec.append(None)
             elif '*' in p['type']['qualType']: raise Unsupported('pointer parameter %s neither read at fixed positions nor written' % nm)
-            else: ins.append(nm); s.param_spec.append(None)
+            else: ins.append(nm); s.param_spec.append(None); s.sig_ins.append((nm, 'scalar', None))
         outs = []; pnames = set(p['name'] for p in params)
         for a in sorted(s.outs):
-            if a in pnames: outs += ['%s%d' % (a, i) for i in sorted(s.outs[a])]
+            if a in pnames: outs += ['%s%d' % (a, i) for i in sorted(s.outs[a])]; s.sig_outs += [(a, 'arr', i) for i in sorted(s.outs[a])]
         for a in sorted(s.mem_out):
-            if a in pnames: outs += [mname(a, f, i) for (f, i) in sorted(s.mem_out[a])]
+            if a in pnames: outs += [mname(a, f, i) for (f, i) in sorted(s.mem_out[a])]; s.sig_outs += [(a, 'mem', fi) for fi in sorted(s.mem_out[a])]
         for a in sorted(s.ptr_out):
-            if a in pnames: outs.append(a + '_v')
+            if a in pnames: outs.append(a + '_v'); s.sig_outs.append((a, 'ptr', None))
         for a in list(s.arr_in) + list(s.mem_in):
             if a not in pnames: raise Unsupported('local object %s read before it is written' % a)
-        if s.has_ret: outs.append('ret')
+        if s.has_ret: outs.append('ret'); s.sig_outs.append((None, 'ret', None))
+        s.param_names = [p['name'] for p in params]
         # an array that is both read and written at the same indices (in-place) is not in the subset
         for a in s.outs:
             if a in s.arr_in and False: raise Unsupported('in-place array ' + a)
@@ -337,12 +377,12 @@ def ast_of(repo, fn, defines=()):
     finally:
         os.unlink(tu.name)
 
-def translate(repo, fn, defines=(), callees=None, requires=(), inlines=(), style='let', short=None, callee_names=None):
+def translate(repo, fn, defines=(), callees=None, requires=(), inlines=(), style='let', short=None, callee_names=None, cps=None):
     """callees: {callee C name: parameter spec list} for value-returning functions already translated;
     inlines: names of functions (same subset) whose calls are translated in place"""
     d = ast_of(repo, fn, defines)
     short = short or fn.replace('secp256k1_', '')
-    f = Fn(d, short, callees, {g: ast_of(repo, g, defines) for g in inlines}, style); f.callee_names = callee_names or {}
+    f = Fn(d, short, callees, {g: ast_of(repo, g, defines) for g in inlines}, style); f.callee_names = callee_names or {}; f.cps = cps or {}
     text, ins, outs = f.run()
     if requires:
         text = text.replace('Require Import Kernel.CSem', 'Require Import %s Kernel.CSem' % ' '.join('Gen.' + r for r in requires), 1)
